@@ -3,6 +3,7 @@
 package pipeline
 
 import (
+	"strings"
 	"encoding/json"
 
 	"github.com/buildkite/go-pipeline/ordered"
@@ -16,6 +17,7 @@ import (
 func init() {
 	vpRegister("c13_steps", vpH_c13_steps)
 	vpRegister("c13_long", vpH_c13_long)
+	vpRegister("c13_wide", vpH_c13_wide)
 	vpRegister("c13_exotic_keys", vpH_c13_exotic_keys)
 }
 
@@ -353,4 +355,65 @@ func vpH_c13_exotic_keys() {
 	vpAssert(merr == nil && vpJKind(b) == 5, "a usable pipeline whose kept mappings have arbitrary string keys marshals to JSON")
 	_, yerr := yaml.Marshal(p)
 	vpAssert(yerr == nil, "a usable pipeline whose kept mappings have arbitrary string keys marshals to YAML")
+}
+
+// Strings of every width: a step (an unrecognised scalar, a command, an unknown
+// mapping's value, a key) whose text has a length next to one of the integer
+// constants of the code, made of one-byte characters, of two-byte characters,
+// or of a three-byte character followed by one-byte ones - so that byte counts
+// and character counts differ. The parse survives, and the text is kept whole.
+func vpH_c13_wide() {
+	n := vpBoundarySize("*step_scalar.go,*steps.go,*step.go,*step_command.go,*parser.go,*pipeline.go,*warning.go", vpParam("max"))
+	var text string
+	shape := vpInt(0, 2)
+	switch shape {
+	case 0:
+		text = strings.Repeat("q", n)
+	case 1: // two-byte characters (and one trailing byte when the length is odd)
+		text = strings.Repeat("\u00e9", n/2) + strings.Repeat("q", n%2)
+	default:
+		if n >= 3 {
+			text = "\u65e5" + strings.Repeat("q", n-3)
+		} else {
+			text = strings.Repeat("q", n)
+		}
+	}
+	var entry any
+	where := vpInt(0, 3)
+	switch where {
+	case 0:
+		entry = "z" + text // an unrecognised scalar step
+	case 1:
+		entry = vpMapOf("command", text)
+	case 2:
+		entry = vpMapOf("mystery", text)
+	default:
+		entry = vpMapOf("command", "c", "x"+text, "v")
+	}
+	p := new(Pipeline)
+	err := ordered.Unmarshal([]any{entry}, p)
+	usable := err == nil || warning.Is(err)
+	vpAssert(usable, "a step with long or wide text never aborts the parse")
+	if !usable || len(p.Steps) != 1 {
+		vpAssert(!usable || len(p.Steps) == 1, "one step")
+		return
+	}
+	switch where {
+	case 0:
+		u, ok := p.Steps[0].(*UnknownStep)
+		vpAssert(ok && u.Contents == any("z"+text) && warning.Is(err), "an unrecognised scalar step is kept whole, with a warning")
+	case 1:
+		c, ok := p.Steps[0].(*CommandStep)
+		vpAssert(ok && c.Command == text, "the command text is kept whole")
+	case 2:
+		u, ok := p.Steps[0].(*UnknownStep)
+		vpAssert(ok && warning.Is(err), "an unrecognised mapping step is kept, with a warning")
+		if ok {
+			m, isMap := u.Contents.(*ordered.MapSA)
+			vpAssert(isMap && m.Len() == 1, "... with its contents")
+		}
+	default:
+		c, ok := p.Steps[0].(*CommandStep)
+		vpAssert(ok && len(c.RemainingFields) == 1 && c.RemainingFields["x"+text] == any("v"), "an unknown key is kept whole")
+	}
 }
